@@ -24,6 +24,7 @@ def key(d):
 def run(ck, tier):
     sd = vplib.subdir('c19')
     cfgs = [('Matrix_dup.cfg', 'one row, <=3 values from 17 nested values: duplicates'),
+            ('Matrix_rows2.cfg', 'two literal rows sharing values (duplicates are per row), include/exclude on both keys'),
             ('Matrix_exc_quick.cfg' if tier == 'quick' else 'Matrix_exc.cfg',
              'row x include variants x exclude entries: exclude verdicts')]
     vecs = []
